@@ -1040,6 +1040,8 @@ func uuidNew(fr *frame, args []value) value {
 	for i := range a {
 		a[i] = uint8(0x30 + i)
 	}
+	a[15] = uint8(fr.i.uuidSeq)
+	fr.i.uuidSeq++
 	return a
 }
 
